@@ -77,7 +77,7 @@ Definition agrees_c03 (root : path) (sb : option node) (r : request) (o : respon
 
 Definition href_ok (root : path) (sb : option node) (e : ms_entry) : bool :=
   match local_segs (me_href e) with
-  | Ok segs => String.eqb (me_href e) (external_path segs) && mapped (abs sb (root ++ segs))
+  | Ok segs => href_names (me_href e) segs (is_col (abs sb (root ++ segs))) && mapped (abs sb (root ++ segs))
   | _ => false
   end.
 
